@@ -41,7 +41,14 @@ class PairRig:
         n, r, w = len(b), self.rnd, self.w
         if w == 1:
             return [b]
-        cuts = sorted(r.sample(range(1, n), w - 1)) if r.random() < 0.5 else sorted({1, n - 1} | set(r.sample(range(1, n), max(0, w - 3))))[: w - 1]
+        u = r.random()
+        if u < 0.45 and n > 8:
+            # a cut inside the outer header: after the tag, inside the length octets, right after the header
+            cuts = sorted({r.choice((1, 2, 2, 2, 3, 3, 4, 5, 6))} | set(r.sample(range(7, n), w - 2)))
+        elif u < 0.75:
+            cuts = sorted(r.sample(range(1, n), w - 1))
+        else:
+            cuts = sorted({1, n - 1} | set(r.sample(range(1, n), max(0, w - 3))))[: w - 1]
         if len(cuts) != w - 1:
             cuts = sorted(r.sample(range(1, n), w - 1))
         return [b[a:z] for a, z in zip([0] + cuts, cuts + [n])]
@@ -303,6 +310,65 @@ def replay(rep: C.Report, w: int, edges: t.List[t.Dict[str, t.Any]], seed: int, 
         rep.sample({"engine": "pair", "call": e["call"], "src": e["src"], "dst": e["dst"]})
 
 
+def directed_pipelines(rep: C.Report, seed: int) -> None:
+    """Two messages sent back to back in one direction, delivered in three pieces: the first piece ends inside the first
+    message, the second completes it and ends 1-6 octets into the second message's header, the third brings the rest.
+    Enumerated over the size classes (short-form, one-octet and two-octet long-form outer length) of both messages and
+    over the cut positions; every call is accepted and every response matches its request (C11's premise).  This is the
+    Pair.tla behaviour  call, call, drain, deliver k, deliver W, deliver rest  with the slicing of the messages chosen
+    on purpose instead of at random."""
+    import sansldap as s
+
+    rnd = random.Random(seed * 7 + 1)
+    sizes = {"short": 20, "long1": 150, "long2": 400}
+    n = 0
+
+    def pad(k: int) -> bytes:
+        return bytes(rnd.randrange(256) for _ in range(k))
+
+    for da, sa in sizes.items():
+        for db, sb in sizes.items():
+            for c1 in (2, 3, 4, 6, "mid"):
+                for c2 in (1, 2, 3, 4, 5, 6):
+                    for direction in ("c2s", "s2c"):
+                        c, srv = s.LDAPClient(), s.LDAPServer()
+                        try:
+                            if direction == "c2s":
+                                ida = c.extended_request("1.2.3", pad(sa))
+                                a = c.data_to_send()
+                                idb = c.extended_request("1.2.4", pad(sb))
+                                b = c.data_to_send()
+                                rx, want = srv, [("extReq", ida), ("extReq", idb)]
+                            else:
+                                ida = c.search_request("dc=x")
+                                srv.receive(c.data_to_send())
+                                srv.search_result_entry(ida, "cn=a", [s.PartialAttribute("v", [pad(sa)])])
+                                a = srv.data_to_send()
+                                srv.search_result_done(ida, diagnostics_message="d" * sb)
+                                b = srv.data_to_send()
+                                rx, want = c, [("entry", ida), ("done", ida)]
+                            p1 = len(a) // 2 if c1 == "mid" else min(c1, len(a) - 1)
+                            p2 = min(c2, len(b) - 1)
+                            got = []
+                            for piece in (a[:p1], a[p1:] + b[:p2], b[p2:]):
+                                buf = bytearray(piece)
+                                got += list(rx.receive(buf))
+                                buf[:] = b"\xaa" * len(buf)
+                            have = [(proj.kind_of(m), m.message_id) for m in got]
+                        except Exception as ex:  # noqa: BLE001
+                            rep.violation(f"spurious-error/directed/{direction}", f"two pipelined messages ({da}, {db}) cut at {c1} / {c2}: {type(ex).__name__}: {ex}",
+                                          {"direction": direction, "sizes": [da, db], "cuts": [c1, c2]})
+                            continue
+                        n += 1
+                        rep.case(("directed", direction, da, db, c1, c2))
+                        if have != want:
+                            rep.violation(f"returned-messages/directed/{direction}/{'fewer' if len(have) < len(want) else 'different'}",
+                                          f"two pipelined messages ({da} {len(a)} octets, {db} {len(b)} octets) delivered as [{p1}], [rest + {p2}], [rest]: received {have}, sent {want}",
+                                          {"direction": direction, "sizes": [len(a), len(b)], "cuts": [p1, p2]})
+    rep.traces += n
+    rep.add_part("directed pipelining (two messages, three pieces, cut positions and size classes enumerated)", cases=n)
+
+
 PAIR_INVS = ["NoHeldBackUnit", "Agreement", "StreamsWellFormed", "ChunkingConfluence"]
 PAIR_PROPS = ["NoSpuriousError", "HopConservationS", "HopConservationC", "DrainConservation"]
 
@@ -332,6 +398,7 @@ def run_pair(rep: C.Report, wd: str, tier: str, seed: int) -> None:
         p = os.path.join(wd, f"pair-em-{j}.cfg")
         pair_cfg(p, w, mi, mp_, mo, emit=True)
         jobs.append(dict(module="PairEmit", cfg=p, wd=wd, workers=1, tag=f"pairem{j}", heap="12g", timeout=3000))
+    directed_pipelines(rep, seed)
     res = C.run_tlc_parallel(jobs)
     for j, (w, mi, mp_, mo) in enumerate(mc):
         rep.add_tlc(f"Pair.tla W={w} MaxId={mi} MaxPipe={mp_} MaxOb={mo}: {', '.join(PAIR_INVS + PAIR_PROPS)}", res[j], exhaustive=True)
